@@ -4,6 +4,7 @@ from common import case_line
 from gen import bytes_upto, rand_bounds
 
 LEVEL = "proof"
+COUNTS = ["b"]        # modes of cases.count_thresholds
 BIG_IO = lambda a: "-b" in a        # which command lines of cases.rand_cli the large-input stream keeps
 
 
